@@ -1,23 +1,36 @@
 from engine.core import Job
 META = dict(
     level="other",
-    claim="Conditional-inclusion skipping and include search order on the real preprocess.c: skip_line returns the next line start (extra tokens ignored); push_cond_incl records a group as taken iff the full 64-bit controlling value is non-zero; search_include_paths returns the first existing candidate in directory order and positions #include_next after it, search_include_next continues from there, for every existence pattern over 4 directories.",
+    claim="Conditional-inclusion skipping and include search order on the real preprocess.c: skip_line returns the next line start (extra tokens ignored); real preprocess2 (with the real skip_cond_incl/skip_cond_incl2/skip_line/push_cond_incl) passes through exactly the groups C11 6.10.1 selects on four concrete directive skeletons (ifndef/else, nested ifdef/ifndef, doubly nested inside a skipped group, if/elif/else) for all symbolic 64-bit controlling values; push_cond_incl records a group as taken iff the full 64-bit value is non-zero; search_include_paths returns the first existing candidate in directory order and positions #include_next after it, search_include_next continues from there, for every existence pattern over 4 directories.",
     note="Bounded (4 tokens / 4 directories); group skipping (skip_cond_incl) is not covered (tool limit). Assumed: format() yields the i-th candidate path, file_exists is a pure predicate of an unchanging file system, the include memo table is empty (first lookup). Not covered: taken-branch bookkeeping in preprocess2, #if expression evaluation (see C07), include guard detection, -idirafter ordering in main.c.",
-    functions=["preprocess.c:push_cond_incl", "preprocess.c:skip_line", "preprocess.c:is_hash", "preprocess.c:search_include_paths", "preprocess.c:search_include_next"],
+    functions=["preprocess.c:preprocess2", "preprocess.c:push_cond_incl", "preprocess.c:skip_cond_incl", "preprocess.c:skip_cond_incl2", "preprocess.c:skip_line", "preprocess.c:is_hash", "preprocess.c:search_include_paths", "preprocess.c:search_include_next"],
     trusted_base=["CBMC 6.11"],
-    assumptions=["ghost format()/file_exists()", "empty include cache", "equal(tok, s) holds iff the token's spelling is s (ghost stub of tokenize.c equal)"],
+    assumptions=["ghost format()/file_exists()", "empty include cache", "eval_const_expr/find_macro/expand_macro are stand-in stubs (calls redirected): they yield the symbolic value of each directive and consume its line", "equal(tok, s) holds iff the token's spelling is s (ghost stub of tokenize.c equal)"],
     explanation="bounded symbolic harnesses on real preprocess.c functions against spec scanners",
 )
 CUT = ["error", "error_tok", "error_at", "verror_at"]
 def jobs(tier):
     P = dict(mode="plain", cut=CUT, havoc=["warn_tok"], timeout=300, replay=None)
+    PC = dict(P); PC["cut"] = ["error", "error_at", "verror_at"]
     return [
         Job(name="skip_line", src="skip.c", group="C10.1 trailing tokens", defs={"FN": "0", "NT": "4"}, unwind=12, bounded="token lists of 4 tokens", sample="skip_line on every 4-token list with symbolic line-start flags", **P),
         # skip_cond_incl / skip_cond_incl2 (recursive over the token list) are NOT run: symbolic execution of the recursion over a
         # symbolic token list did not finish for lists of 4 tokens, neither inlined (path explosion after the recursive call
         # returns a merged pointer) nor under a DFCC recursive contract (SAT out of memory at 10 GB).  See DESIGN.md I.4.
-        # cond.c scenarios 0-2 (real preprocess2 on concrete #ifdef/#else/#endif skeletons) are NOT run: symbolic execution of
-        # preprocess2 (a 150-line dispatcher whose every arm is reachable for the verifier) did not finish in 10 minutes.
+        # real preprocess2 on concrete directive skeletons with symbolic controlling values.  Explored path by path
+        # (cbmc --paths lifo): every path is concrete, whereas merged symbolic execution did not finish.
+        Job(name="cond-ifndef-else", src="cond.c", group="C10.3 taken-branch bookkeeping", defs={"SCEN": "0"}, unwind=40, cbmc_flags=["--paths lifo"],
+            redirect={"eval_const_expr": "stub_eval_const_expr", "find_macro": "stub_find_macro", "expand_macro": "stub_expand_macro"},
+            bounded="concrete directive skeleton, symbolic controlling values", sample="#ifndef A / #else / #endif, then #ifdef B / #endif", **P),
+        Job(name="cond-nested-ifdef", src="cond.c", group="C10.3 taken-branch bookkeeping", defs={"SCEN": "1"}, unwind=40, cbmc_flags=["--paths lifo"],
+            redirect={"eval_const_expr": "stub_eval_const_expr", "find_macro": "stub_find_macro", "expand_macro": "stub_expand_macro"},
+            bounded="concrete directive skeleton, symbolic controlling values", sample="#ifdef A { #ifndef B / #else / #endif } #else / #endif", **P),
+        Job(name="cond-nested2", src="cond.c", group="C10.3 taken-branch bookkeeping", defs={"SCEN": "2"}, unwind=40, cbmc_flags=["--paths lifo"],
+            redirect={"eval_const_expr": "stub_eval_const_expr", "find_macro": "stub_find_macro", "expand_macro": "stub_expand_macro"},
+            bounded="concrete directive skeleton, symbolic controlling values", sample="#ifdef A { #ifdef B { #ifndef C } } #else / #endif: doubly nested inside a skipped group", **P),
+        Job(name="cond-if-elif", src="cond.c", group="C10.3 taken-branch bookkeeping", defs={"SCEN": "3"}, unwind=40, cbmc_flags=["--paths lifo"],
+            redirect={"eval_const_expr": "stub_eval_const_expr", "find_macro": "stub_find_macro", "expand_macro": "stub_expand_macro"},
+            bounded="concrete directive skeleton, symbolic controlling values", sample="#if A / #elif B / #else / #endif with 64-bit values", **P),
         Job(name="push_cond_incl", src="cond.c", group="C10.3 taken-branch bookkeeping", defs={"SCEN": "9"}, mode="plain", cut=CUT, havoc=["warn_tok"], unwind=8, timeout=300, replay=None,
             bounded="single call", sample="push_cond_incl with every 64-bit controlling value"),
         Job(name="search_include", src="search.c", group="C10.5 include search order", unwind=8, bounded="4 include directories", sample="search_include_paths/next over every existence pattern of 4 directories", **P),
